@@ -47,7 +47,7 @@ Qed.
 
 (* the error flag hypothesis holds for every reachable state of a consistent configuration *)
 Theorem as_if_never_attempted_reachable g p1 failed rest :
-  cfg_consistent g -> flat_hier g -> at_boundary (run g p1) -> no_commit failed ->
+  cfg_consistent g -> hier_consistent g -> at_boundary (run g p1) -> no_commit failed ->
   run g (p1 ++ failed ++ [Rollback] ++ rest) = run g (p1 ++ rest).
 Proof.
   intros CC FH Hb Hnc.
